@@ -207,8 +207,13 @@ def body(ctx):
                 add(f"find {kt} {vt} {bad} 1", r, {"options": opts, "key": bad})
                 ctx.count(("findbad", kt, bad), True, "find_unknown_key")
             # round trip through json
-            dd = json.loads(json.dumps(opm.to_dict()))
-            opm2 = hyruns.OptionManager.from_dict(dd)
+            try:
+                dd = json.loads(json.dumps(opm.to_dict()))
+                opm2 = hyruns.OptionManager.from_dict(dd)
+            except Exception as e:  # noqa: a round trip that cannot be made is a violation, not a harness failure
+                ctx.finding("roundtrip/raises", "the dictionary/JSON round trip of a cartesian-product manager raises",
+                            {"options": opts, "context": ctxd, "keynames": kn, "error": f"{type(e).__name__}: {e}"[:200]})
+                continue
             e1, e2 = bool(opm == opm2), bool(opm2 == opm)
             same = (opm2.tasks == opm.tasks and opm2.options == {k: as_list(v) for k, v in opts.items()} and opm2.context == ctxd and opm2.name == "nm")
             ck, cv = C.slist(ctxd.keys()), C.slist(ctxd.values())
@@ -259,8 +264,13 @@ def body(ctx):
                 if found != expect:
                     ctx.finding("find/not_equality_filter", "find on a regenerated grid does not return exactly the tasks whose option equals the value",
                                 {"options": opts, "key": key, "val": val, "found": found, "expected": expect, "step": step, "how": how})
-            dd = json.loads(json.dumps(opm.to_dict()))
-            opm2 = hyruns.OptionManager.from_dict(dd)
+            try:
+                dd = json.loads(json.dumps(opm.to_dict()))
+                opm2 = hyruns.OptionManager.from_dict(dd)
+            except Exception as e:  # noqa
+                ctx.finding("roundtrip/raises", "the dictionary/JSON round trip of a cartesian-product manager raises",
+                            {"options": opts, "context": cvals, "step": step, "error": f"{type(e).__name__}: {e}"[:200]})
+                continue
             e1, e2 = bool(opm == opm2), bool(opm2 == opm)
             same = opm2.tasks == opm.tasks and opm2.context == cvals and opm2.options == {k: as_list(v) for k, v in opts.items()}
             if not (e1 and e2 and same):
